@@ -35,6 +35,24 @@ T = TypeVar("T")
 RequestT = TypeVar("RequestT", bound=Request)
 
 
+class _ProvideLock:
+    """Reentrant lock that does not prevent copying and pickling of its owner, a copy gets the new lock"""
+
+    __slots__ = ("_lock", )
+
+    def __init__(self):
+        self._lock = RLock()
+
+    def __enter__(self):
+        return self._lock.__enter__()
+
+    def __exit__(self, exc_type, exc_val, exc_tb):
+        return self._lock.__exit__(exc_type, exc_val, exc_tb)
+
+    def __reduce__(self):
+        return (type(self), ())
+
+
 class SearchingRetort(BaseRetort, Provider, ABC):
     """A retort that can operate as Retort but have no predefined providers and no high-level user interface"""
 
@@ -120,7 +138,7 @@ class SearchingRetort(BaseRetort, Provider, ABC):
             for request_cls in self._request_cls_to_router
         }
         self._call_cache: dict[Any, Any] = {}
-        self._provide_lock = RLock()
+        self._provide_lock = _ProvideLock()
 
     def _create_request_cls_to_router(self, full_recipe: Sequence[Provider]) -> Mapping[type[Request], RequestRouter]:
         request_cls_to_checkers_and_handlers: defaultdict[type[Request], list[CheckerAndHandler]] = defaultdict(list)
